@@ -308,6 +308,24 @@ fn serve(inner: Arc<Inner>, mut stream: TcpStream, conn: u64) {
                     Outcome::Dropped
                 }
             }
+            Decision::AbortAfterHeaders { .. } | Decision::AbortMidBody { .. } => {
+                // the status line is the whole acknowledgement on HTTP/1: logged before it is written
+                inner.update(idx, |r| r.outcome = Outcome::Acked);
+                let ct = if json { "application/json" } else { "application/x-protobuf" };
+                let head = format!("HTTP/1.1 200 OK\r\ncontent-type: {ct}\r\ncontent-length: 16\r\n\r\n");
+                let mut ok = stream.write_all(head.as_bytes()).is_ok();
+                if ok && matches!(decision, Decision::AbortMidBody { .. }) {
+                    ok = stream.write_all(b"{\"pa").is_ok();
+                }
+                let _ = stream.flush();
+                // ... and the connection goes away instead of the announced body
+                close = true;
+                if ok {
+                    Outcome::Acked
+                } else {
+                    Outcome::Dropped
+                }
+            }
             Decision::CloseBeforeRead | Decision::WedgeConnection { .. } => unreachable!(),
         };
         if outcome == Outcome::Dropped {
